@@ -300,8 +300,8 @@ def evaluate(env, c):
             x = int(val)
         except (TypeError, ValueError):
             return False
-        if not 0 <= x < scale:
-            return False
+        if not 0 <= x < scale or len(val) != len(str(scale)) - 1 or not val.isdigit():
+            return False        # a "part" of the timestamp: the 3- / 6-digit fraction, so that seconds.part reads as a decimal number
         if t1 - t0 >= 0.9:
             return True
         lo, hi = int((t0 % 1) * scale) - 2, int((t1 % 1) * scale) + 2
@@ -436,7 +436,7 @@ def main():
     CONFIGURE = re.search(r'#define SNOOPY_CONFIGURE_COMMAND "(.*)"\n', cfgh).group(1).encode().replace(b'\\"', b'"')
     ctx.assumptions = ["ipaddr, domain and systemd_unit_name are only exercised (no oracle): the sandbox cannot shape utmp, /etc/hosts or "
                        "systemd cgroups", "names for ids without passwd/group entry: any placeholder that is not another account's name",
-                       "login is compared with libc's getlogin_r in the same state, then the documented SUDO_USER/LOGNAME fallback",
+                       "timestamp_ms / timestamp_us are the zero-padded 3- / 6-digit fraction of the second", "login is compared with libc's getlogin_r in the same state, then the documented SUDO_USER/LOGNAME fallback",
                        "states the sandbox refuses to construct (e.g. setresuid errors) are skipped and counted, never judged"]
     nw, per = (4, 350) if ctx.quick else (16, 2500)
     pbt.run(ctx, {"ts-asan": b}, strategy, evaluate, classify, nw, per)
